@@ -12,7 +12,7 @@ from tla import OUT, ToolError, parse_printed, run_tlc
 PROPS = {
     "C02": dict(benches=["chain", "triangle", "fanout"], caps=dict(quick=[1, 2], thorough=[1, 2, 3]),
                 invariants=["CausalDelivery", "WithinCapacity"]),
-    "C03": dict(benches=["chain", "fanout", "volume", "query", "hier3"], caps=dict(quick=[1, 2], thorough=[1, 2, 3, 16]),
+    "C03": dict(benches=["chain", "fanout", "volume", "query", "hier3", "sources"], caps=dict(quick=[1, 2], thorough=[1, 2, 3, 16]),
                 invariants=["ExactlyOnce", "NothingInvented", "WithinCapacity"]),
     "C04": dict(benches=["chain", "triangle", "volume", "query", "saturate", "hier3"],
                 caps=dict(quick=[1, 2], thorough=[1, 2, 3]), invariants=["QuiescentMeansDone", "ExactlyOnce"],
@@ -22,7 +22,7 @@ PROPS = {
     "C06": dict(benches=["qloop", "qself", "saturate2", "saturate", "orphan", "orphan2", "panic_inflight", "hier", "qwrap0", "qwrap1", "qwrap2",
                          "qwrap3"],
                 caps=dict(quick=[1, 2, 3], thorough=[1, 2, 3, 4, 5, 6, 7]), invariants=["QuiescentMeansDone"]),
-    "C14": dict(benches=["query", "query6", "qpartial"], caps=dict(quick=[1, 2], thorough=[1, 2, 4]), invariants=[]),
+    "C14": dict(benches=["query", "query6", "qpartial", "sources"], caps=dict(quick=[1, 2], thorough=[1, 2, 4]), invariants=[]),
     "C16": dict(benches=["hier", "hier3", "hpanic_P", "hpanic_P_a", "hpanic_P_b", "hpanic_P_a_x", "hpanic_Q"],
                 caps=dict(quick=[2], thorough=[1, 2, 3]), invariants=["InitOnceFirst"]),
 }
@@ -241,6 +241,11 @@ def bench_loop(chk, prop, cfg, tier, rng, wd, finish=False):
         check_taskset.taskset_part(chk, thorough, wd)
     if prop == "C05":
         task_part(chk, rng, thorough, wd)
+        # a Runnable duplicated by the executor's queues (overflow of the local queue into the injector, stealing) would
+        # let two workers poll one task: bursts beyond the local queue's capacity and rings on the real thread pool,
+        # every woken task polled exactly once
+        import check_pool
+        check_pool.pool_part(chk, rng, thorough, wd, [], only_big=True)
     if prop in POOL_INVARIANTS:
         import check_pool
         check_pool.pool_part(chk, rng, thorough, wd, POOL_INVARIANTS[prop])
